@@ -162,8 +162,26 @@ func oracleC07(r *rig, res *scnResult) {
 			}
 			hc := r.tree.height[bad]
 			res.Info["contradiction-delivered"] = true
-			sigDisc, sigReq, when := "c07-checkpoint-violator-not-disconnected", "c07-request-after-checkpoint-mismatch", "ahead of the service's tip"
-			if h0 < 0 || h0 >= hc {
+			sigDisc, sigReq, when := "c07-checkpoint-violator-not-disconnected", "c07-request-after-checkpoint-mismatch", "ahead of everything the service had stored and compared"
+			// the same headers message brought, before it, the header of an EARLIER checkpoint that was still ahead: the
+			// cursor stands on that earlier checkpoint for the whole message (it moves after the loop), so this one is
+			// not compared — the cursor-only rule of finding R2
+			earlierCpInSameMsg := false
+			for _, idx := range hist[k].Idx {
+				if idx == bad {
+					break
+				}
+				for _, c := range s.Cps {
+					if idx == c && r.tree.height[c] > h0 {
+						earlierCpInSameMsg = true
+					}
+				}
+			}
+			if earlierCpInSameMsg && h0 >= 0 && h0 < hc {
+				sigDisc, sigReq = "c07-passed-checkpoint-not-enforced", "c07-passed-checkpoint-not-enforced"
+				when = "in the same headers message as the header matching the previous checkpoint (the sync cursor moves only after the message)"
+				res.Info["contradiction-of-passed-checkpoint"] = true
+			} else if h0 < 0 || h0 >= hc {
 				// the checkpoint lies at or below the service's tip: the implementation compares with the sync cursor only
 				sigDisc, sigReq, when = "c07-passed-checkpoint-not-enforced", "c07-passed-checkpoint-not-enforced", "at or below the service's tip (already passed by sync)"
 				res.Info["contradiction-of-passed-checkpoint"] = true
@@ -231,12 +249,110 @@ func oracleC07(r *rig, res *scnResult) {
 			}
 		}
 	}
+	// (4b) a matching checkpoint header advances the cursor: when a node answers a request that starts below checkpoint
+	// c (first locator hash on the node's chain at height h0 < h(c)) with a message in which c's header is the first
+	// checkpoint header, is consistent with all checkpoints and holds nothing forbidden, and c's header reaches the
+	// service with this message for the first time, and the request itself stopped at c (the cursor stood on c), then the
+	// NEXT request to that node must not stop at c or at any
+	// checkpoint at or below it (it stops at a later checkpoint, or is unbounded)
+	if !(s.Engine == "legacy" && s.CpOff) {
+		cpAt := map[int]int{} // tree idx -> height, for checkpoint blocks
+		for _, c := range s.Cps {
+			cpAt[c] = r.tree.height[c]
+		}
+		forbSet := map[int]bool{}
+		for _, x := range s.Forbid {
+			forbSet[x] = true
+		}
+		firstSeq := map[int]int64{} // checkpoint block -> smallest Seq of a sent headers message holding it
+		carriers := map[int]int{}   // … and how many nodes ever sent it
+		for i := range r.nodes {
+			sentIt := map[int]bool{}
+			for _, e := range fs[i].Hist {
+				if e.Sent && e.Kind == "headers" {
+					for _, idx := range e.Idx {
+						if _, ok := cpAt[idx]; ok {
+							if q, seen := firstSeq[idx]; !seen || e.Seq < q {
+								firstSeq[idx] = e.Seq
+							}
+							sentIt[idx] = true
+						}
+					}
+				}
+			}
+			for idx := range sentIt {
+				carriers[idx]++
+			}
+		}
+		for i, n := range r.nodes {
+			hist := fs[i].Hist
+			for k := 1; k < len(hist); k++ {
+				e := hist[k]
+				if !e.Sent || e.Kind != "headers" || len(e.Idx) == 0 || hist[k-1].Sent || hist[k-1].Kind != "getheaders" {
+					continue
+				}
+				g := hist[k-1].GH
+				if len(g.Loc) == 0 {
+					continue
+				}
+				h0 := 0
+				if g.Loc[0] != r.tree.genHash {
+					idx, ok := r.tree.byHash[g.Loc[0]]
+					if !ok || r.tree.height[idx] > len(n.spec.Path) || n.spec.Path[r.tree.height[idx]-1] != idx {
+						continue
+					}
+					h0 = r.tree.height[idx]
+				}
+				cp, clean := -1, true
+				for _, idx := range e.Idx {
+					if forbSet[idx] {
+						clean = false
+					}
+					for _, c := range s.Cps { // a header at a checkpoint height that is not the checkpoint
+						if r.tree.height[idx] == r.tree.height[c] && idx != c {
+							clean = false
+						}
+					}
+					if _, ok := cpAt[idx]; ok && cp < 0 && r.tree.height[idx] > h0 {
+						cp = idx
+					}
+				}
+				// … and the request itself stopped at c: the cursor stood on c when the request went out
+				if cp < 0 || !clean || firstSeq[cp] != e.Seq || (!r.serial() && carriers[cp] > 1) || g.Stop != r.tree.hash[cp] {
+					continue
+				}
+				for _, e2 := range hist[k+1:] {
+					if e2.Sent || e2.Kind != "getheaders" {
+						continue
+					}
+					res.Info["cursor-advance-checked"] = true
+					for _, c := range s.Cps {
+						if e2.GH.Stop == r.tree.hash[c] && r.tree.height[c] <= r.tree.height[cp] {
+							fail("c07-cursor-not-advanced-after-matching-checkpoint",
+								fmt.Sprintf("node %d delivered the header matching the checkpoint at height %d (first checkpoint of its answer to a request from height %d); the next request to it still stops at the checkpoint of height %d", i, r.tree.height[cp], h0, r.tree.height[c]),
+								"stop = a later checkpoint, or 0 after the last one", "stop = #"+fmt.Sprint(c))
+						}
+					}
+					break
+				}
+			}
+		}
+	}
 	// (5) after either event the service still converges on an honest peer's chain
 	before := len(res.Failures)
 	oracleC06(r, res)
 	for k := before; k < len(res.Failures); k++ {
 		f := &res.Failures[k]
-		if strings.HasPrefix(f.Signature, "c06-other") {
+		// unclassified, or "the sync peer is kept": when that sync peer is the checkpoint-violating node that was not
+		// dropped, the root cause is C07's
+		if strings.HasPrefix(f.Signature, "c06-other") || f.Signature == "c06-exhausted-sync-peer-kept-while-better-candidate-connected" {
+			if f.Signature == "c06-exhausted-sync-peer-kept-while-better-candidate-connected" {
+				if sig, why := classifyC07(r, res, t); sig != "" {
+					f.Signature = sig
+					f.What += "; " + why
+				}
+				continue
+			}
 			f.Signature = "c07-other:no-convergence-" + scnKind(s)
 			if sig, why := classifyC07(r, res, t); sig != "" {
 				f.Signature = sig
@@ -474,8 +590,74 @@ func genMismatch(rng *rand.Rand, o genOpts, engine string) *scn {
 	return s
 }
 
+// genRunPast: two checkpoints c1 < c2 on the honest chain; the misbehaving node's branch matches c1, forks between them
+// and contradicts c2; it IGNORES the stop hash, so its first answer runs past c1 (the matching header is followed by
+// more new headers in the same message) and ends before c2; the contradiction arrives with a later answer. After the
+// match the cursor must stand on c2: the next request stops there, the contradiction is noticed, the node is dropped.
+// (sameMsg: the first answer runs past c2 as well — the cursor-only rule of finding R2 then lets the contradiction in.)
+func genRunPast(rng *rand.Rand, o genOpts, engine string) *scn {
+	L := 10 + rng.Intn(o.MaxLen-4)
+	s := &scn{Engine: engine, Sched: "serial", Seed: rng.Int63n(1 << 30), Salt: rng.Uint32(), Parents: linearParents(L)}
+	c1 := 2 + rng.Intn(L-7)         // heights
+	c2 := c1 + 3 + rng.Intn(L-c1-4) // c1+3 .. L-2
+	f := c1 + rng.Intn(c2-c1-1)     // last common height: c1 .. c2-2
+	m := c2 - f + 1 + rng.Intn(2)   // side branch reaches beyond c2
+	side := []int{}
+	for j := 0; j < m; j++ {
+		par := f - 1
+		if j > 0 {
+			par = len(s.Parents) - 1
+		}
+		s.Parents = append(s.Parents, par)
+		side = append(side, len(s.Parents)-1)
+	}
+	s.Bits = make([]uint32, len(s.Parents))
+	for i := range s.Bits {
+		s.Bits[i] = defaultBits
+	}
+	if rng.Intn(2) == 0 {
+		s.Bits[f] = bitsSmall[2] // the honest chain can overtake a stored contradiction
+	}
+	s.Cps = []int{c1 - 1, c2 - 1}
+	s0 := rng.Intn(c1) // stored prefix
+	if s0 > 0 {
+		s.Init = seq(0, s0)
+	}
+	e1 := c1 + 1 + rng.Intn(c2-c1-1) // the first answer ends at height e1: c1 < e1 < c2
+	if rng.Intn(6) == 0 {
+		e1 = c2 + rng.Intn(2) // same message: past c2
+	}
+	if rng.Intn(4) == 0 {
+		s.Sched = "free"
+	}
+	evilPath := append(seq(0, f), side...)
+	if e1 > len(evilPath) {
+		e1 = len(evilPath)
+	}
+	evil := scnNode{Path: evilPath, Pos: len(evilPath), Cap: e1 - s0, Dir: "out", Honest: false, CloseAt: -1, StallAt: -1, NoStop: true}
+	if rng.Intn(3) == 0 {
+		evil.Dir = "in"
+	}
+	s.Nodes = append(s.Nodes, evil)
+	nHonest := 1 + rng.Intn(2)
+	for i := 0; i < nHonest; i++ {
+		n := scnNode{Path: seq(0, L), Pos: L, Cap: capAlphabet[rng.Intn(len(capAlphabet))], Dir: "out", Honest: true, CloseAt: -1, StallAt: -1}
+		s.Nodes = append(s.Nodes, n)
+	}
+	// the misbehaving node first: it is the sync peer while the cursor stands on c1
+	s.Steps = append(s.Steps, scnStep{Kind: "connect", Node: 0}, scnStep{Kind: "run"})
+	for i := 1; i <= nHonest; i++ {
+		if engine == "exp" && i > 1 {
+			break
+		}
+		s.Steps = append(s.Steps, scnStep{Kind: "connect", Node: i}, scnStep{Kind: "run"})
+	}
+	timePasses(s)
+	return s
+}
+
 func runC07(c *Ctx) error {
-	c.R.Rule = "scenario = honest chain + a misbehaving scripted node whose (otherwise conformant) chain contains a forbidden header at a random height or contradicts a checkpoint, reply caps 1/2/7/2000 and initial stores chosen so that the offending header lands at every batch position; optional second node pushing descendants of the forbidden header unsolicited; 1..2 honest nodes; both engines; 0..n checkpoints; serial (trace compared with the Lean model) and free-running scheduling; non-trivial = the offending header was actually delivered"
+	c.R.Rule = "scenario = honest chain + a misbehaving scripted node whose (otherwise conformant) chain contains a forbidden header at a random height or contradicts a checkpoint, reply caps 1/2/7/2000 and initial stores chosen so that the offending header lands at every batch position; optional second node pushing descendants of the forbidden header unsolicited; nodes that IGNORE the stop hash and run an answer past a matching checkpoint, the contradiction of the next checkpoint arriving with a later answer (or, rarely, the same one); 1..2 honest nodes; both engines; 0..n checkpoints; serial (trace compared with the Lean model) and free-running scheduling; non-trivial = the offending header was actually delivered"
 	l := newSyncModel(c)
 	defer l.Close()
 	if c.Replay != "" {
@@ -548,7 +730,10 @@ func runC07(c *Ctx) error {
 		}
 		var s *scn
 		kind := "forbidden"
-		if rng.Intn(5) < 2 {
+		if k := rng.Intn(10); k < 2 {
+			kind = "runpast"
+			s = genRunPast(rng, o, engine)
+		} else if k < 5 {
 			kind = "mismatch"
 			s = genMismatch(rng, o, engine)
 		} else {
@@ -612,6 +797,9 @@ func reportC07(c *Ctx, res *scnResult, rigErrs *int) {
 	}
 	if res.Info["stop-checked"] == true {
 		c.R.Count("stop-hash-checked", 1)
+	}
+	if res.Info["cursor-advance-checked"] == true {
+		c.R.Count("cursor-advance-after-match-checked", 1)
 	}
 	c.R.Count("events", len(res.Events))
 }
